@@ -255,8 +255,19 @@ func (p *Processor) ChargingDataUpdate(
 
 	cdr := ue.Cdr[chargingSessionId]
 
-	if len(ue.Records) > 1 {
-		cdr = ue.Records[len(ue.Records)-1]
+	// After a record split the session continues in its latest partial record,
+	// which is the last record in ue.Records that belongs to *this* session
+	// (the subscriber may have other sessions with records of their own).
+	for i := len(ue.Records) - 1; i >= 0; i-- {
+		record := ue.Records[i]
+		if record == nil || record.ChargingFunctionRecord == nil ||
+			record.ChargingFunctionRecord.ChargingSessionIdentifier == nil {
+			continue
+		}
+		if string(record.ChargingFunctionRecord.ChargingSessionIdentifier.Value) == chargingSessionId {
+			cdr = record
+			break
+		}
 	}
 
 	cdrBytes, errCdrBer := asn.BerMarshalWithParams(&cdr, "explicit,choice")
